@@ -626,3 +626,185 @@ class Pad(Contract):
 
         check(h, "build.pad", res, spec, arrays,
               [nz[d] + bz[d][0] + bz[d][1] for d in range(r)])
+
+
+# {{{ matmul / dot / vdot
+
+def _matmul_cases(tier):
+    rmax = 4
+    out = []
+    for r1 in range(1, rmax + 1):
+        for r2 in range(1, rmax + 1):
+            out.append(dict(label=f"matmul;{r1}x{r2}", fn="matmul", r1=r1,
+                            r2=r2, unit=None))
+            if r1 >= 3 and r2 >= 3:
+                # a literal-1 stack axis on one side (NumPy broadcasts it)
+                out.append(dict(label=f"matmul;{r1}x{r2};unit-stack-left",
+                                fn="matmul", r1=r1, r2=r2, unit="left"))
+                out.append(dict(label=f"matmul;{r1}x{r2};unit-stack-right",
+                                fn="matmul", r1=r1, r2=r2, unit="right"))
+    dmax = 3 if tier != "thorough" else 4
+    for r1 in range(1, dmax + 1):
+        for r2 in range(1, dmax + 1):
+            out.append(dict(label=f"dot;{r1}x{r2}", fn="dot", r1=r1, r2=r2,
+                            unit=None))
+    out.append(dict(label="vdot;1x1", fn="vdot", r1=1, r2=1, unit=None))
+    return out
+
+
+@contract
+class MatmulDot(Contract):
+    name = "build.matmul"
+    functions = ("pytato.array:matmul", "pytato.array:dot",
+                 "pytato.array:vdot", "pytato.array:Array.__matmul__",
+                 "pytato.array:Array.__rmatmul__")
+    properties = ("C01", "C11", "C03")
+
+    def instances(self, tier):
+        return _matmul_cases(tier)
+
+    def canaries(self, tier):
+        return [(dict(label="matmul;4x3", fn="matmul", r1=4, r2=3, unit=None),
+                 "left-aligned-stack", "build.matmul.value")]
+
+    def run(self, h, inst):
+        from pytato import reductions as R
+        from pytato.transform.lower_to_index_lambda import to_index_lambda
+        fn, r1, r2, unit = inst["fn"], inst["r1"], inst["r2"], inst["unit"]
+        arrays = ArrayModel()
+        J = dim(h, "J")
+        if fn == "dot" and r1 >= 2 and r2 >= 2 or fn == "dot" and r2 == 1:
+            # np.dot: no broadcasting of leading axes (outer product of them)
+            s1 = [dim(h, f"a{d}") for d in range(r1 - 1)]
+            s2 = [dim(h, f"b{d}") for d in range(max(r2 - 2, 0))]
+            K = [dim(h, "K")] if r2 >= 2 else []
+            shp1 = [*s1, J]
+            shp2 = [*s2, J, *K]
+        else:
+            ns1, ns2 = max(r1 - 2, 0), max(r2 - 2, 0)
+            ns = max(ns1, ns2)
+            stack = [dim(h, f"s{d}") for d in range(ns)]
+            st1 = list(stack[ns - ns1:])
+            st2 = list(stack[ns - ns2:])
+            if unit == "left":
+                st1[0] = 1
+            elif unit == "right":
+                st2[0] = 1
+            I = [dim(h, "I")] if r1 >= 2 else []   # noqa: E741
+            K = [dim(h, "K")] if r2 >= 2 else []
+            shp1 = [*st1, *I, J]
+            shp2 = [*st2, J, *K] if r2 >= 2 else [J]
+        x1 = mk_placeholder(h, "x1", shape=shp1)
+        x2 = mk_placeholder(h, "x2", shape=shp2)
+        res = build(h, "build.matmul", getattr(pt, fn), x1, x2)
+        if res is None:
+            h.fail("build.matmul.accepts-what-numpy-accepts",
+                   "rejected operands NumPy multiplies", props=("C01",))
+            return
+        try:
+            il = res if isinstance(res, IndexLambda) else \
+                h.call(to_index_lambda, res)
+        except EngineSignal:
+            raise
+        except Exception as e:  # noqa: BLE001
+            h.fail("build.matmul.lowers", f"{type(e).__name__}: {e}",
+                   props=("C01",))
+            return
+        jz = shape_term(J)
+        rv = {"j": z3.Int("r_j")}
+
+        def red(body):
+            return Reduction(R.SumReductionOperation(),
+                             [("j", z3.IntVal(0), jz)], body, rv)
+        j = rv["j"]
+        if fn == "dot" and (r1 >= 2 and r2 >= 2 or r2 == 1):
+            n1 = r1 - 1
+            n2 = max(r2 - 2, 0)
+            spec_shape = [shape_term(d) for d in (*shp1[:-1], *shp2[:n2],
+                                                   *K)]
+
+            def spec(iv):
+                i1 = list(iv[:n1])
+                i2 = list(iv[n1:n1 + n2])
+                kk = list(iv[n1 + n2:])
+                return red(A(arrays, x1, [*i1, j])
+                           * A(arrays, x2, [*i2, j, *kk] if r2 >= 2 else [j]))
+        else:
+            ns1, ns2 = max(r1 - 2, 0), max(r2 - 2, 0)
+            ns = max(ns1, ns2)
+            _acc, sshape = np_broadcast([shp1[:ns1], shp2[:ns2]])
+            spec_shape = [*sshape, *(shape_term(d) for d in shp1[ns1:-1]),
+                          *(shape_term(d) for d in shp2[ns2 + 1:])]
+
+            def spec(iv):
+                siv = list(iv[:ns])
+                rest = list(iv[ns:])
+                ii = rest[:1] if r1 >= 2 else []
+                kk = rest[len(ii):]
+                res_stack_shape = sshape
+                if h.canary == "left-aligned-stack":
+                    b1 = siv[:ns1]
+                    b2 = siv[:ns2]
+                else:
+                    b1 = _bidx_terms(siv, shp1[:ns1], res_stack_shape)
+                    b2 = _bidx_terms(siv, shp2[:ns2], res_stack_shape)
+                return red(A(arrays, x1, [*b1, *ii, j])
+                           * A(arrays, x2, [*b2, j, *kk] if r2 >= 2 else [j]))
+
+        check(h, "build.matmul", il, spec, arrays, spec_shape)
+
+    def replay(self, inst, clause, model, info):
+        return MATMUL_REPLAY.format(fn=inst["fn"], r1=inst["r1"],
+                                    r2=inst["r2"], unit=inst["unit"])
+
+
+def _bidx_terms(iv, arr_shape, res_shape_terms):
+    """NumPy broadcasting of leading (stack) axes, right-aligned."""
+    off = len(res_shape_terms) - len(arr_shape)
+    out = []
+    for t, n in enumerate(arr_shape):
+        nt = shape_term(n)
+        out.append(z3.If(nt == res_shape_terms[off + t], iv[off + t],
+                         z3.IntVal(0)))
+    return out
+
+
+MATMUL_REPLAY = '''
+import sys, itertools
+sys.path.insert(0, "/verif")
+import numpy as np, pytato as pt
+from pyvc.replaylib import eval_array, reproduced, not_reproduced
+fn, r1, r2, unit = {fn!r}, {r1!r}, {r2!r}, {unit!r}
+J = 3
+rng = np.random.default_rng(0)
+def shapes():
+    if fn == "dot" and (r1 >= 2 and r2 >= 2 or r2 == 1):
+        yield (tuple(range(2, 2 + r1 - 1)) + (J,),
+               tuple(range(4, 4 + max(r2 - 2, 0))) + (J,) + ((2,) if r2 >= 2 else ()))
+        return
+    ns1, ns2 = max(r1 - 2, 0), max(r2 - 2, 0)
+    ns = max(ns1, ns2)
+    stack = tuple(range(2, 2 + ns))
+    st1, st2 = list(stack[ns - ns1:]), list(stack[ns - ns2:])
+    if unit == "left": st1[0] = 1
+    if unit == "right": st2[0] = 1
+    yield (tuple(st1) + ((4,) if r1 >= 2 else ()) + (J,),
+           (tuple(st2) + (J, 2)) if r2 >= 2 else (J,))
+for s1, s2 in shapes():
+    a = rng.integers(-3, 4, s1).astype(np.float64)
+    b = rng.integers(-3, 4, s2).astype(np.float64)
+    want = getattr(np, fn)(a, b)
+    try:
+        node = getattr(pt, fn)(pt.make_placeholder("x1", s1, np.float64),
+                               pt.make_placeholder("x2", s2, np.float64))
+        got = eval_array(node, {{"x1": a, "x2": b}})
+    except Exception as e:
+        reproduced(f"pt.{{fn}} of shapes {{s1}} and {{s2}}: {{type(e).__name__}}: {{e}}")
+    if got.shape != want.shape or not np.array_equal(got, want):
+        reproduced(f"pt.{{fn}} of shapes {{s1}} and {{s2}} differs from NumPy: "
+                   f"{{got.shape}} vs {{want.shape}}; "
+                   f"{{int((got != want).sum()) if got.shape == want.shape else '?'}} entries differ")
+not_reproduced("agrees with NumPy on the sampled shapes")
+'''
+
+# }}}
